@@ -355,7 +355,7 @@ err_t bign96KeypairGen(octet privkey[24], octet pubkey[48],
 	Q = d + n;
 	stack = Q + 2 * n;
 	// d <-R {1,2,..., q - 1}
-	if (!zzRandNZMod(d, ec->f->mod, n, rng, rng_state))
+	if (!zzRandNZMod(d, ec->order, n, rng, rng_state))
 	{
 		blobClose(state);
 		return ERR_BAD_RNG;
